@@ -358,7 +358,9 @@ def _replace_stmt(fn_node, old: ast.stmt, new: List[ast.stmt]) -> bool:
 def _bind_args(call: ast.Call, callee: ast.FunctionDef, is_method: bool):
     """param -> argument expression, or None if the call cannot be bound statically."""
     a = callee.args
-    if a.vararg or a.kwarg or any(isinstance(x, ast.Starred) for x in call.args) or any(k.arg is None for k in call.keywords):
+    if a.vararg or any(isinstance(x, ast.Starred) for x in call.args):
+        return None
+    if not a.kwarg and any(k.arg is None for k in call.keywords):
         return None
     pos = [x.arg for x in a.posonlyargs + a.args]
     if is_method and pos and pos[0] == "self":
@@ -369,10 +371,19 @@ def _bind_args(call: ast.Call, callee: ast.FunctionDef, is_method: bool):
         return None
     for p, arg in zip(pos, call.args):
         out[p] = arg
+    extras: List[ast.keyword] = []
     for k in call.keywords:
+        if k.arg is None or (a.kwarg and k.arg not in pos + kwonly):
+            # collected by the callee's **kwargs: only forwarded verbatim (see _spread_kwargs)
+            if not a.kwarg or not _is_simple(k.value):
+                return None
+            extras.append(k)
+            continue
         if k.arg in out or k.arg not in pos + kwonly:
             return None
         out[k.arg] = k.value
+    if a.kwarg:
+        out["**" + a.kwarg.arg] = extras
     allpos = a.posonlyargs + a.args
     defaults = dict(zip([x.arg for x in allpos[len(allpos) - len(a.defaults):]], a.defaults))
     for p, d in zip(kwonly, a.kw_defaults):
@@ -461,6 +472,33 @@ def _live_after(fn_node, st: ast.stmt, name: str) -> bool:
     return False
 
 
+def _spread_kwargs(body: List[ast.stmt], name: str, extras: List[ast.keyword]) -> Optional[List[ast.stmt]]:
+    """The callee's `**name` parameter may only be forwarded (`f(..., **name)`); each such use is replaced by the keywords
+    the call site supplied.  Any other use of `name` (lookup, mutation, truth test) -> None (not inlined)."""
+    spread = set()
+    for s in body:
+        for n in ast.walk(s):
+            if isinstance(n, ast.Call):
+                for k in n.keywords:
+                    if k.arg is None and isinstance(k.value, ast.Name) and k.value.id == name:
+                        spread.add(id(k.value))
+    for s in body:
+        for n in ast.walk(s):
+            if isinstance(n, ast.Name) and n.id == name and id(n) not in spread:
+                return None
+    for s in body:
+        for n in ast.walk(s):
+            if isinstance(n, ast.Call):
+                new_kw = []
+                for k in n.keywords:
+                    if k.arg is None and isinstance(k.value, ast.Name) and k.value.id == name:
+                        new_kw.extend(copy.deepcopy(extras))
+                    else:
+                        new_kw.append(k)
+                n.keywords = new_kw
+    return body
+
+
 def _prepare_body(caller_fi, call: ast.Call, callee_fi, st=None):
     callee = callee_fi.node
     if any(isinstance(n, (ast.Yield, ast.YieldFrom, ast.Global, ast.Nonlocal, ast.FunctionDef, ast.Lambda)) for s in callee.body for n in ast.walk(s)):
@@ -472,6 +510,10 @@ def _prepare_body(caller_fi, call: ast.Call, callee_fi, st=None):
     if binding is None:
         return None
     body = copy.deepcopy(_callee_parts(callee_fi))
+    for kname in [k for k in binding if k.startswith("**")]:
+        body = _spread_kwargs(body, kname[2:], binding.pop(kname))
+        if body is None:
+            return None
     caller_names = bound_names(caller_fi.node)
     callee_locals = bound_names(callee) - {a.arg for a in callee.args.posonlyargs + callee.args.args + callee.args.kwonlyargs}
     pre: List[ast.stmt] = []
@@ -575,6 +617,30 @@ _HOIST_N = [0]
 def _hoist_call(caller_fi, st, call: ast.Call) -> bool:
     """`stmt[f(a)]` -> `t = f(a); stmt[t]` when f(a) is evaluated unconditionally by a simple statement and everything
     evaluated before it in that statement is pure (the next round then inlines `t = f(a)`)."""
+    if isinstance(st, ast.For):
+        # `for t in g(f(a)):` -> `h = f(a); for t in g(h):`  (the iterable is evaluated once, before the first iteration)
+        if not any(n is call for n in ast.walk(st.iter)):
+            return False
+        parents = {}
+        for p in ast.walk(st.iter):
+            for c in ast.iter_child_nodes(p):
+                parents[id(c)] = p
+        cur = call
+        while cur is not st.iter:
+            par = parents.get(id(cur))
+            if par is None or isinstance(par, (ast.IfExp, ast.BoolOp, ast.Lambda, ast.ListComp, ast.SetComp, ast.DictComp, ast.GeneratorExp)):
+                return False
+            cur = par
+        others = [n for n in ast.walk(st.iter) if isinstance(n, ast.Call) and n is not call and not any(m is n for m in ast.walk(call))]
+        if any(_has_impure_call(o) for o in others if not any(m is call for m in ast.walk(o))):
+            return False
+        _HOIST_N[0] += 1
+        tmp = f"h{_HOIST_N[0]}__r"
+        pre = ast.copy_location(ast.Assign(targets=[ast.Name(id=tmp, ctx=ast.Store())], value=call), st)
+        st.iter = _replace_node(st.iter, call, ast.Name(id=tmp, ctx=ast.Load()))
+        ast.fix_missing_locations(pre)
+        ast.fix_missing_locations(st)
+        return _replace_stmt(caller_fi.node, st, [pre, st])
     if not isinstance(st, (ast.Assign, ast.AugAssign, ast.Expr, ast.Return, ast.AnnAssign)):
         return False
     # the call must not sit under a conditional / deferred evaluation context
@@ -693,6 +759,12 @@ def _inline_expression_call(caller_fi, st, call: ast.Call, callee_fi) -> bool:
     binding = _bind_args(call, callee_fi.node, is_method)
     if binding is None:
         return False
+    if any(k.startswith("**") for k in binding):
+        spread = _spread_kwargs(copy.deepcopy(body), [k for k in binding if k.startswith("**")][0][2:], binding[[k for k in binding if k.startswith("**")][0]])
+        if spread is None:
+            return False
+        body = spread
+        binding = {k: v for k, v in binding.items() if not k.startswith("**")}
     expr = copy.deepcopy(body[0].value)
     # every parameter is substituted textually: safe when arguments are pure expressions
     if any(_has_impure_call(a) for a in binding.values()):
